@@ -29,7 +29,9 @@ import numpy as np
 
 from harness import gen, dense
 
-RULE = ("values: random trees 1..7 nodes (uniform/chain/star/spider/binaryish/caterpillar, single node), two states "
+RULE = ("centre: trees 1..6 nodes, every centre, exactly canonical integer states (signed-permutation isometries), "
+        "integer operator on the centre and on a random node: shortcut vs full values vs Lean einrec; "
+        "values: random trees 1..7 nodes (uniform/chain/star/spider/binaryish/caterpillar, single node), two states "
         "+ one TTNO with independent insertion orders and bonds, gauges none / canonical_form in REDUCED, FULL, KEEP "
         "at a random centre + centre moves / exactly isometric small-integer tensors with the centre recorded by hand; "
         "exact regime ({0,+-1,+-i}, ==) and random complex (1e-10); tensor products on 0..N sites, non-Hermitian. "
@@ -50,12 +52,20 @@ PARTIAL = [
     "(contract_nodes modelled by _data_contraction); that Ptn.Ein.sumPairs / Expr.eval are what "
     "numpy.tensordot computes is checked per run on integer tensors (ein, einrec, _model_value incl. the node-level "
     "helpers any/root/opany/oproot), not proved",
-    "orthogonality-centre shortcuts (scalar_product, norm, single-site and one-site tensor product on the centre) are "
-    "sound only for canonical states (isometry contract, C03): oracle only",
+    "orthogonality-centre shortcuts (scalar_product, norm, single-site and one-site tensor product on the centre): "
+    "centre_shortcut_value / centre_operator_value prove them equal to the full contraction GIVEN the index-form "
+    "canonicity Centre.Canon (the isometry contract, established by C03 canonical_form_centre_norm); the link from the "
+    "C04 tree labels (gKet/gBra) to the Centre/Kids structure of Ptn/Common/EinsumIso.lean is not proved (the theorems "
+    "quantify over every program with the norm / sandwich record); stream `centre` compares the library's shortcut and "
+    "full values with the Lean model's evaluation on exactly canonical integer states; the shortcut's leg bookkeeping "
+    "(centreScalarProduct / centreSingleSite) is modelled but not served by the driver",
     "TTNO.as_matrix: as_matrix_graph_partial takes contract_nodes by its _data_contraction tensordot (= documented "
     "leg order when the child has no children left); the lazily stored leg permutation (C02) is not modelled",
-    "apply_operator/absorb_into_open_legs, conjugate(), deepcopy in tensor_product_expectation_value: oracle only",
-    "contract_all_neighbour_blocks_to_hamiltonian is modelled and compared through the driver but has no theorem",
+    "apply_operator/absorb_into_open_legs: absorb_into_open_legs_legs (labels), apply_operator_node_value (value), "
+    "apply_operator_orth_centre (recorded centre) proved; the model absorbIntoOpenLegs is not served by the driver: the "
+    "library's new state is compared with the Lean evaluation of the network with the operator bound (stream `centre`); "
+    "conjugate(): conjugate_value proved for every ring homomorphism, structure equality by oracle; deepcopy in "
+    "tensor_product_expectation_value: oracle only",
 ]
 ASSUMPTIONS = ["NumPy tensordot/transpose/reshape/vdot semantics", "dense contraction by tensordot over labelled legs",
                "float arithmetic on Gaussian integers below 2^53 is exact"]
@@ -102,7 +112,7 @@ def _adj(par):
     return adj
 
 
-def _exact_iso_state(rng, nprng, par, open_dims, centre, small_int, names=None):
+def _exact_iso_state(rng, nprng, par, open_dims, centre, small_int, names=None, phases=(1, -1, 1j, -1j)):
     """A state that is exactly canonical at `centre`: every other tensor is an isometry toward the centre
     whose non-zero entries are phases in {1,-1,i,-i} (one per column, in distinct rows)."""
     from pytreenet.ttns.ttns import TreeTensorNetworkState
@@ -146,7 +156,7 @@ def _exact_iso_state(rng, nprng, par, open_dims, centre, small_int, names=None):
         m = np.zeros((d_in, d_out), dtype=complex)
         rows = rng.sample(range(d_in), d_out)
         for col, r in enumerate(rows):
-            m[r, col] = rng.choice([1, -1, 1j, -1j])
+            m[r, col] = rng.choice(list(phases))
         t = m.reshape(in_dims + [d_out])
         cur = in_legs + [out_leg]
         tensors[x] = np.transpose(t, [cur.index(l) for l in legs])
@@ -1433,6 +1443,156 @@ def gen_heff_cases(ctx):
 
 # =========================================================================== cases
 
+# ---------------------------------------------------------------------------------------------------------------------
+# stream `centre` (B39): the orthogonality-centre shortcuts, apply_operator, conjugate on exactly canonical INTEGER states
+# (signed-permutation isometries toward the centre, integer centre tensor): the Lean model (`netValue`, line `einrec`)
+# evaluates (1) the full norm network, (2) the centre tensor alone, (3) the full sandwich with an operator on the centre,
+# (4) centre . operator . centre*, (5) the state network with an operator bound to the open leg of a node; the library's
+# scalar_product() / single_site_operator_expectation_value / apply_operator must give exactly these integers
+# (theorems centre_shortcut_value, centre_operator_value, apply_operator_node_value, apply_operator_orth_centre).
+
+def gen_centre_cases(ctx):
+    rng = ctx.subrng("centre")
+    cases = []
+    for _ in range(ctx.n(60, 600)):
+        n = rng.choice([1, 2, 3, 3, 4, 4, 5, 6])
+        par = gen.random_parent_array(rng, n, rng.choice([None, None, "chain", "star"]) if n >= 3 else None)
+        cases.append({"kind": "centre", "par": par, "seed": rng.randrange(10 ** 9), "centre": rng.randrange(n),
+                      "target": rng.randrange(n)})
+    return cases
+
+
+def _centre_network(ttns):
+    """labels, dims, ket / bra leaves (node order of the library) and the bonds of both copies"""
+    num, dims, ket, bra = {}, [], {}, {}
+    for nid in sorted(ttns.nodes):
+        node = ttns.nodes[nid]
+        t = np.asarray(ttns.tensors[nid])
+        nbs = ([node.parent] if node.parent is not None else []) + list(node.children) + ["|open"]
+        arr = np.round(t.real).astype(np.int64)
+        for lay, store in (("k", ket), ("b", bra)):
+            ll = []
+            for nb, d in zip(nbs, t.shape):
+                num[(lay, nid, nb)] = len(dims)
+                dims.append(int(d))
+                ll.append(num[(lay, nid, nb)])
+            store[nid] = (ll, arr)
+    bonds = []
+    for nid in sorted(ttns.nodes):
+        for ch in ttns.nodes[nid].children:
+            bonds.append((num[("k", nid, ch)], num[("k", ch, nid)]))
+            bonds.append((num[("b", nid, ch)], num[("b", ch, nid)]))
+    return num, dims, ket, bra, bonds
+
+
+def _as_int(z):
+    z = complex(z)
+    return int(round(z.real)) if abs(z - round(z.real)) < 1e-9 else z
+
+
+def _case_centre(ctx, case):
+    import random
+    from copy import deepcopy
+    from harness import einsum_corr
+    from pytreenet.operators.tensorproduct import TensorProduct
+    rng = random.Random(case["seed"])
+    nprng = np.random.default_rng(case["seed"])
+    par, c, tg = case["par"], case["centre"], case["target"]
+    n = len(par)
+    open_dims = _phys_dims(rng, n, (2, 2, 3))
+    ttns, names = _exact_iso_state(rng, nprng, par, open_dims, c, True, phases=(1, -1))
+    cid, tid = names[c], names[tg]
+    t = np.asarray(ttns.tensors[cid])
+    ttns.tensors[cid] = (t.real + t.imag).astype(complex)
+    ttns.orthogonality_center_id = cid
+    num, dims, ket, bra, bonds = _centre_network(ttns)
+    ids = sorted(ttns.nodes)
+    ctx.tally("variant", "centre")
+    ctx.tally("centre_nodes", n)
+    ctx.count(("centre", tuple(par), case["seed"], c, tg), nontrivial=n >= 2, corr=True)
+    phys = [(num[("k", i, "|open")], num[("b", i, "|open")]) for i in ids]
+    leaves = [ket[i] for i in ids] + [bra[i] for i in ids]
+    d = dims[num[("k", cid, "|open")]]
+    op = nprng.integers(-2, 3, size=(d, d)).astype(np.int64)
+    o_out, o_in = len(dims), len(dims) + 1
+    dims2 = dims + [d, d]
+    cpairs = [(a, b) for a, b in zip(ket[cid][0], bra[cid][0])]
+    sand = [(num[("k", cid, "|open")], o_in), (o_out, num[("b", cid, "|open")])]
+    phys_c = [p for p in phys if p[0] != num[("k", cid, "|open")]]
+    dt = dims[num[("k", tid, "|open")]]
+    opt = nprng.integers(-2, 3, size=(dt, dt)).astype(np.int64)
+    t_out, t_in = len(dims), len(dims) + 1
+    dims3 = dims + [dt, dt]
+    kbonds = [bd for k, bd in enumerate(bonds) if k % 2 == 0]
+    free5 = [t_out if i == tid else num[("k", i, "|open")] for i in ids]
+    if int(np.prod([dims3[l] for l in free5])) * int(np.prod([dims[a] for a, _ in kbonds] or [1])) * dt > 60000:
+        ctx.tally("centre", "skipped (too large)")
+        return
+    lines = [einsum_corr.einrec_line(dims, [], phys + bonds, leaves),
+             einsum_corr.einrec_line(dims, [], cpairs, [ket[cid], bra[cid]]),
+             einsum_corr.einrec_line(dims2, [], sand + phys_c + bonds, leaves + [([o_out, o_in], op)]),
+             einsum_corr.einrec_line(dims2, [], sand + cpairs[:-1], [ket[cid], ([o_out, o_in], op), bra[cid]]),
+             einsum_corr.einrec_line(dims3, free5, kbonds + [(num[("k", tid, "|open")], t_in)],
+                                     [([t_out, t_in], opt)] + [ket[i] for i in ids])]
+    outs = ctx.lean.batch(lines)
+    tabs = [einsum_corr.parse_table(o, "full") for o in outs]
+    if any(x is None for x in tabs):
+        ctx.corr_fail(case, f"centre: the value-level model rejects a network of a canonical state: {[o[:80] for o in outs]}")
+        return
+    # theorems: full = shortcut (norm and operator)
+    if tabs[0] != tabs[1] or tabs[2] != tabs[3]:
+        ctx.corr_fail(case, f"centre: Lean model: full norm {tabs[0]} vs centre alone {tabs[1]}; full sandwich {tabs[2]} vs "
+                            f"centre.op.centre* {tabs[3]} on an exactly canonical state (centre_shortcut_value / "
+                            f"centre_operator_value)")
+    v = dense.ttns_vector(ttns, ids)
+    libs = {}
+    try:
+        libs["scalar_product() shortcut"] = (_as_int(ttns.scalar_product()), tabs[1])
+        libs["scalar_product(use_orthogonal_center=False)"] = (_as_int(ttns.scalar_product(use_orthogonal_center=False)), tabs[0])
+        libs["single_site_operator_expectation_value shortcut"] = (
+            _as_int(ttns.single_site_operator_expectation_value(cid, op.astype(complex))), tabs[3])
+        other = deepcopy(ttns)
+        other.orthogonality_center_id = None
+        libs["operator_expectation_value, no centre recorded"] = (
+            _as_int(other.operator_expectation_value(TensorProduct({cid: op.astype(complex)}))), tabs[2])
+    except Exception as e:          # noqa: BLE001
+        ctx.oracle_fail(case, f"centre: raised {type(e).__name__}: {e}")
+        return
+    for route, (got, tab) in libs.items():
+        if [got] != tab:
+            ctx.corr_fail(case, f"centre: {route} = {got}, the Lean model evaluates the same network on the same integer "
+                                f"tensors to {tab}")
+    nrm2 = _as_int(np.vdot(v, v))
+    if libs["scalar_product() shortcut"][0] != nrm2:
+        ctx.oracle_fail(case, f"centre: scalar_product() from the centre tensor = {libs['scalar_product() shortcut'][0]}, "
+                              f"dense <psi|psi> = {nrm2}")
+    # apply_operator on one node: new state = (1 x op x 1) psi, leg order kept, centre record kept iff target == centre
+    new = deepcopy(ttns)
+    try:
+        new.apply_operator(TensorProduct({tid: opt.astype(complex)}))
+    except Exception as e:          # noqa: BLE001
+        ctx.oracle_fail(case, f"centre: apply_operator raised {type(e).__name__}: {e}")
+        return
+    want_oc = cid if tid == cid else None           # Ptn.C04.apply_operator_orth_centre
+    if new.orthogonality_center_id != want_oc:
+        ctx.oracle_fail(case, f"centre: apply_operator on {tid} with recorded centre {cid}: record is "
+                              f"{new.orthogonality_center_id}, must be {want_oc}")
+    if np.asarray(new.tensors[tid]).shape != np.asarray(ttns.tensors[tid]).shape:
+        ctx.oracle_fail(case, "centre: apply_operator changed the leg order / shape of the node tensor")
+        return
+    w = dense.ttns_vector(new, ids)
+    got5 = [_as_int(x) for x in np.asarray(w).reshape(-1)]
+    if got5 != tabs[4]:
+        ctx.corr_fail(case, f"centre: state after apply_operator on {tid} {got5[:8]} differs from the Lean model's "
+                            f"evaluation of the network with the operator bound to the open leg {tabs[4][:8]}")
+    # conjugate(): same structure, every tensor conjugated; value = conj(value)
+    cj = ttns.conjugate()
+    if sorted(cj.nodes) != ids or any(not np.array_equal(np.asarray(cj.tensors[i]), np.conj(np.asarray(ttns.tensors[i])))
+                                      for i in ids):
+        ctx.oracle_fail(case, "centre: conjugate() is not the entry-wise conjugate on the same structure")
+    ctx.tally("centre", "target is centre" if tid == cid else "target is not centre")
+
+
 def gen_cases(ctx):
     rng = ctx.rng
     arng = ctx.subrng("audit-values")
@@ -1499,7 +1659,7 @@ def run(ctx):
         if ctx.time_left() < 0:
             break
         _case_tree(ctx, c, mo)
-    for c in gen_nb1_cases(ctx) + gen_single_cases(ctx) + gen_cases(ctx):
+    for c in gen_centre_cases(ctx) + gen_nb1_cases(ctx) + gen_single_cases(ctx) + gen_cases(ctx):
         if ctx.time_left() < 0:
             break
         run_case(ctx, c)
@@ -1521,6 +1681,8 @@ def run_heff(ctx):
 def run_case(ctx, case):
     if case.get("kind") == "values":
         _case_values(ctx, case)
+    elif case.get("kind") == "centre":
+        _case_centre(ctx, case)
     elif case.get("kind") == "nb1":
         _case_nb1(ctx, case)
     elif case.get("kind") == "single":
